@@ -299,6 +299,28 @@ def check(run):
             comb_ok = rets[0].value.left is calls["gk"][0] and rets[0].value.right is calls["ga"][0]
     run.ob("R5-config", "registry.build_registry/keywords-then-decoders", comb_ok, w(br.node), "the registry is the keyword searchers followed by the decoders",
            "combination shape not recognised", mech="statement-shape match")
+    # every build returns a registry of its own: the two collectors allocate their list in the activation and are not memoised
+    # (build_registry extends the keyword list in place: a cached list would accumulate the decoders of every earlier build)
+    for fi in (gk, ga, br):
+        run.ob("R5-config", f"{fi.fq}/not-memoised", not fi.decorators, w(fi.node), f"{fi.qualname} is evaluated afresh for every registry (no cache decorator)",
+               f"decorated with {[norm_src(d) for d in fi.decorators]}: later builds would share - and here extend - one list", mech="decorator census")
+    for fi in (gk, ga):
+        retn = [n for n in own_nodes(fi.node) if isinstance(n, ast.Return)]
+        fresh = True
+        det = ""
+        for r in retn:
+            v = r.value
+            if isinstance(v, ast.Name):
+                defs = [n for n in own_nodes(fi.node) if isinstance(n, (ast.Assign, ast.AnnAssign)) and
+                        common.is_name(n.targets[0] if isinstance(n, ast.Assign) else n.target, v.id)]
+                if not defs or not all(isinstance(d.value, (ast.List, ast.ListComp)) or (isinstance(d.value, ast.Call) and common.is_name(d.value.func, "list")) for d in defs):
+                    fresh = False
+                    det = f"returns `{v.id}`, which is not a list allocated in the call"
+            elif not isinstance(v, (ast.List, ast.ListComp)):
+                fresh = False
+                det = f"returns `{norm_src(v)}`"
+        run.ob("R5-config", f"{fi.fq}/returns-fresh-list", fresh and bool(retn), w(fi.node), f"{fi.qualname} returns a list allocated in the call", det,
+               mech="return provenance")
     # Multidecoder.__init__
     mi = prog.fn("multidecoder.Multidecoder.__init__")
     mm = mi.module
